@@ -6,7 +6,7 @@
    the mapping in place is modelled by threading the new mapping.  Aliasing /
    ownership (C05) is modelled separately in Ownership.v. *)
 From Coq Require Import List ZArith String Bool Ascii Lia.
-From Cerb Require Import Values PyOps Errors Tree Facts Regex Pool Validate.
+From Cerb Require Import Values PyOps Errors Tree Facts Regex Pool Validate Worklist.
 Import ListNotations.
 Open Scope string_scope.
 Open Scope Z_scope.
@@ -257,37 +257,22 @@ Section WithFacts.
     | _ => Raise TypeError "_normalize_default_setter"
     end.
 
-  Definition keys_eqb (a b : list key) : bool := path_eqb a b.
+  (* one work-list step: call the setter of field f (rules looked up in the table of fields with a setter) *)
+  Definition setter_call (x : ctx) (table : list (key * option value)) (ns : nstate) (f : key) : res (disp nstate) :=
+    let rs := match assoc_get f table with Some r => r | None => None end in
+    do o <- call_setter (n_map ns) rs;
+    match o with
+    | SetOk v => Ok (DDone {| n_map := assoc_set f v (n_map ns); n_errs := n_errs ns |})
+    | SetRequeue => Ok DRequeue
+    | SetFailed e => do ns' <- nfile x ns f "SETTING_DEFAULT_FAILED" [exc_message e]; Ok (DFailed ns')
+    end.
 
-  (* while fields_with_default_setter: pop(0); try; except KeyError: append; except Exception: error;
-     state = hash(tuple(pending)); seen -> error for every pending field, break *)
-  Fixpoint setter_loop (fuel : nat) (x : ctx) (ns : nstate) (pending : list (key * option value))
-           (seen : list (list key)) : res nstate :=
-    match pending with
+  Fixpoint setter_circular (x : ctx) (ns : nstate) (l : list key) : res nstate :=
+    match l with
     | [] => Ok ns
-    | (f, rs) :: rest =>
-        match fuel with
-        | O => OutOfFuel
-        | S fuel' =>
-            do o <- call_setter (n_map ns) rs;
-            do r <- match o with
-                    | SetOk v => Ok ({| n_map := assoc_set f v (n_map ns); n_errs := n_errs ns |}, rest)
-                    | SetRequeue => Ok (ns, rest ++ [(f, rs)])
-                    | SetFailed e =>
-                        do ns' <- nfile x ns f "SETTING_DEFAULT_FAILED" [exc_message e]; Ok (ns', rest)
-                    end;
-            let '(ns1, pending1) := r in
-            let state := map fst pending1 in
-            if existsb (keys_eqb state) seen then
-              (fix circ (ns : nstate) (l : list (key * option value)) : res nstate :=
-                 match l with
-                 | [] => Ok ns
-                 | (g, _) :: l' =>
-                     do ns' <- nfile x ns g "SETTING_DEFAULT_FAILED" [VStr "Circular dependencies of default setters."];
-                     circ ns' l'
-                 end) ns1 pending1
-            else setter_loop fuel' x ns1 pending1 (state :: seen)
-        end
+    | g :: l' =>
+        do ns' <- nfile x ns g "SETTING_DEFAULT_FAILED" [VStr "Circular dependencies of default setters."];
+        setter_circular x ns' l'
     end.
 
   Definition default_fields (x : ctx) (ns : nstate) (rsch : rschema) : res nstate :=
@@ -295,8 +280,7 @@ Section WithFacts.
     do wd <- with_rule "default" ef;
     let ns1 := apply_defaults ns wd in
     do ws <- with_rule "default_setter" ef;
-    let n := List.length ws in
-    setter_loop (S (n * (n + 1))) x ns1 ws [].
+    wl_run nstate (setter_call x ws) (setter_circular x) ns1 (map fst ws).
 
   (** ** coerce *)
   Fixpoint coerce_fields (x : ctx) (ns : nstate) (rsch : rschema) (fields : list key) : res nstate :=
